@@ -7,7 +7,7 @@ from ..describe import describe
 from ..engines.schemas import resolve_iter, char_item
 from .. import lemmas
 from .common import configs_for, has_feature
-from .util import Rule, guarded, site_of_block
+from .util import Rule, guarded, site_of_block, truth_row, row_models, universe
 from . import models
 
 TITLE = "display_width is the sum of character widths outside ANSI sequences"
@@ -143,17 +143,99 @@ def _skipper(prog, rep):
     CH = ("param", 1, body.arg_names.get(1, "_1"))
     it = (2, ("deref",))
     esc = ("char", ESC)
-    first_next = None
+    all_loops = loop_models(prog, body)
+    in_loop = set()
+    for lm in all_loops:
+        in_loop |= set(lm.blocks)
+    # ---- the loops: which one is the CSI scan, which one the OSC scan -------------
+    loop_class = {}
+    seen = {"csi": 0, "osc": 0}
+    for lm in all_loops:
+        if lm.kind != "iter":
+            r3.check(False, "loop-kind", "", "", "a loop in the skipper is not driven by next() on the iterator",
+                     site=site_of_block(body, lm.header))
+            continue
+        src = resolve_iter(prog, body, lm.next_call[2][0], lm.next_block)
+        r3.check(src is not None and src[0] == "param" and src[1] == 2, "loop-iterator",
+                 "the consuming loop advances the caller's iterator", D(src) if src else "?",
+                 "a loop in the skipper iterates %s, not the iterator parameter" % (D(src) if src else "?"))
+        sv = loop_state_vars(body, lm, types=("char",))
+        item = lm.item
+        trans = loop_system(prog, body, lm, list(sv.keys()), [])
+        is_next_variant = lambda f, lm=lm: f[0][0] == "variant" and f[0][1] == lm.next_call
+        back_rows, break_rows = [], []
+        if not sv:
+            # CSI loop: continue iff !FINAL.contains(ch)
+            seen["csi"] += 1
+            loop_class[lm.header] = "csi"
+            final = ("call", "RangeInclusive::new", (("char", 0x40), ("char", 0x7e)))
+            atoms = [(("b", ("call", "RangeInclusive::contains", (final, item))), True)]
+            want_break = lambda bits: bits[0]
+            feasible = None
+            what = "('\\x40'..='\\x7e').contains(&ch)"
+        else:
+            seen["osc"] += 1
+            loop_class[lm.header] = "osc"
+            lpk = next(iter(sv))
+            last = s.val_entry(lpk, lm.header)
+            init = entry_value(prog, body, lm, lpk)
+            r3.check(init is not None and init[0] == "char" and init[1] != ESC, "osc-last-init",
+                     "the previous-char tracker starts with a non-ESC char", D(init) if init else "?",
+                     "the OSC previous-char tracker starts as %s" % (D(init) if init else "?"))
+            atoms = [(("cmp", "Eq", ("char", BEL), item), True), (("cmp", "Eq", ("char", BSL), item), True),
+                     (("cmp", "Eq", ("char", ESC), last), True)]
+            want_break = lambda bits: bits[0] or (bits[1] and bits[2])
+            feasible = lambda bits: not (bits[0] and bits[1])
+            what = "new == BEL || (new == '\\\\' && last == ESC)"
+            for tr in trans:
+                if tr.kind == "back":
+                    r3.check(tr.next[lpk] == item, "osc-track", "last := new on every continuing path", "next(last) = new",
+                             "the previous-char tracker becomes %s instead of the current char" % D(tr.next[lpk]))
+        bad = False
+        for tr in trans:
+            is_some = any(a[0] == "variant" and a[1] == lm.next_call and a[2] == "Some" and pol for a, pol in tr.facts)
+            if tr.kind == "exit" and not is_some:
+                continue   # the iterator is exhausted
+            row = truth_row(tr.facts, atoms, ignore=is_next_variant)
+            if row == "infeasible":
+                continue
+            if row is None:
+                bad = True
+                r3.check(False, "%s-cond" % loop_class[lm.header], "", "",
+                         "the %s loop %s under a condition outside its specification: %s" % (
+                             loop_class[lm.header].upper(), "continues" if tr.kind == "back" else "stops",
+                             [(D(a[1]) if a[0] == "b" else (a[1], D(a[2]), D(a[3])) if a[0] == "cmp" else a[0], p)
+                              for a, p in tr.facts]), site=site_of_block(body, tr.path[-2]))
+                continue
+            (back_rows if tr.kind == "back" else break_rows).append(row)
+        if not bad:
+            n = len(atoms)
+            got_break = row_models(break_rows, n, feasible)
+            got_back = row_models(back_rows, n, feasible)
+            r3.check(got_break == universe(n, want_break, feasible), "%s-break" % loop_class[lm.header],
+                     "the %s loop stops exactly when %s" % (loop_class[lm.header].upper(), what), "truth table %s" % sorted(got_break),
+                     "the %s loop stops for the cases %s of %s; expected exactly: %s" % (
+                         loop_class[lm.header].upper(), sorted(got_break), [D(a[0][1]) if a[0][0] == "b" else
+                                                                           "%s == %s" % (D(a[0][2]), D(a[0][3])) for a in atoms], what),
+                     site=site_of_block(body, lm.header))
+            r3.check(got_back == universe(n, lambda bits: not want_break(bits), feasible), "%s-continue" % loop_class[lm.header],
+                     "the %s loop continues exactly otherwise" % loop_class[lm.header].upper(), "truth table %s" % sorted(got_back),
+                     "the %s loop continues for the cases %s of the same conditions; expected the complement of: %s" % (
+                         loop_class[lm.header].upper(), sorted(got_back), what), site=site_of_block(body, lm.header))
+    r3.check(seen == {"csi": 1, "osc": 1}, "two-loops", "one CSI and one OSC loop", str(seen),
+             "expected one stateless (CSI) and one char-tracking (OSC) loop, found %s" % seen, nontrivial=False)
+
+    # ---- the dispatch around the loops ------------------------------------------------
     kinds = {}
+    outside = lambda a, b: a not in in_loop
     for path in fn_paths(body):
         pv = PathView(prog, body, path)
-        facts = pv.facts()
-        if contradictory(facts):
+        if contradictory(pv.facts()):
             continue
+        facts = pv.facts(edge_filter=outside)
         evs = [(b, n) for b, n, a, rr in pv.events([it])]
         ret = pv.value_before_term((0, ()), path[-1])
         is_esc = None
-        eqs = {}
         for atom, pol in facts:
             if atom[0] == "cmp" and atom[1] == "Eq" and CH in (atom[2], atom[3]):
                 other = atom[3] if atom[2] == CH else atom[2]
@@ -161,13 +243,6 @@ def _skipper(prog, rep):
                     is_esc = pol
                 else:
                     r2.check(False, "esc-constant", "", "", "the skipper compares ch with %s instead of ESC (U+001B)" % D(other))
-            if atom[0] == "b" and atom[1][0] == "call" and atom[1][1] == "PartialEq::eq":
-                a0, a1 = atom[1][2]
-                if a1[0] == "adt" and a1[2] == "Some" and a0[0] == "callm" and a0[1] == "Iterator::next":
-                    eqs[a1[3][0][1]] = pol
-                    first_next = a0
-        nexts = [b for b, n in evs if n == "Iterator::next"]
-        loops = [b for b, n in evs if n == "IntoIterator::into_iter"]
         if is_esc is False:
             kinds["not-esc"] = True
             r3.check(ret == ("bool", False) and not evs, "not-esc", "ch != ESC: return false, nothing consumed", "no iterator event",
@@ -177,84 +252,69 @@ def _skipper(prog, rep):
             r3.check(False, "esc-test", "", "", "a path through the skipper does not compare ch with ESC")
             continue
         r3.check(ret == ("bool", True), "esc-true", "ch == ESC: return true", "true", "for ch == ESC the skipper returns %s" % D(ret))
+        out_evs = [(b, n) for b, n in evs if b not in in_loop]
+        nexts = [b for b, n in out_evs if n == "Iterator::next"]
+        odd = [n for b, n in out_evs if n not in ("Iterator::next", "IntoIterator::into_iter", "Iterator::by_ref")]
+        r3.check(not odd, "events", "outside the loops the iterator is only advanced by next()", "next only",
+                 "the skipper also applies %s to the iterator" % odd)
         r3.check(len(nexts) == 1, "one-next", "exactly one char is consumed before dispatching", "one next()",
                  "after ESC the skipper calls next() %d times before dispatching" % len(nexts))
-        csi = eqs.get(("char", LBR))
-        osc = eqs.get(("char", RBR))
-        for k in eqs:
+        if len(nexts) != 1:
+            continue
+        fn = prog.simp(pv.resolve(s.call_term(nexts[0])), body)
+        X = ("field", ("as", fn, "Some"), "0")
+        intro = {}      # introducer char -> truth on this path
+        unknown = []
+        none = False
+        for atom, pol in facts:
+            if atom[0] == "cmp" and atom[1] == "Eq" and CH in (atom[2], atom[3]):
+                continue
+            if atom[0] == "variant" and atom[1] == fn:
+                if (atom[2] == "None") == pol:
+                    none = True
+                continue
+            if atom[0] == "b" and atom[1][0] == "call" and atom[1][1] == "PartialEq::eq":
+                a0, a1 = atom[1][2]
+                if a0 == fn and a1[0] == "adt" and a1[2] == "Some" and a1[3][0][1][0] == "char":
+                    intro[a1[3][0][1]] = pol
+                    continue
+            if atom[0] == "cmp" and atom[1] == "Eq" and X in (atom[2], atom[3]):
+                other = atom[3] if atom[2] == X else atom[2]
+                if other[0] == "char":
+                    intro[other] = pol
+                    continue
+            unknown.append((atom, pol))
+        r3.check(not unknown, "dispatch-cond", "the dispatch only inspects ch and the char after ESC", "conditions recognised",
+                 "the skipper's dispatch depends on an unexpected condition: %s" % [
+                     (D(a[1]) if a[0] == "b" else a[0], p) for a, p in unknown[:3]])
+        for k in intro:
             if k not in (("char", LBR), ("char", RBR)):
                 r2.check(False, "introducer", "", "", "the skipper dispatches on %s; expected '[' (CSI) and ']' (OSC)" % D(k))
-        if csi is True:
+        csi = False if none else intro.get(("char", LBR))
+        osc = False if none else intro.get(("char", RBR))
+        if csi is True and osc is None:
+            osc = False
+        if osc is True and csi is None:
+            csi = False
+        hdrs = [loop_class.get(lm.header, "?") for lm in all_loops if lm.header in path]
+        in_evs = [n for b, n in evs if b in in_loop]
+        if csi is True and osc is False:
             kinds["csi"] = True
-            r3.check(len(loops) == 1, "csi-loop", "CSI: the rest is consumed by one loop over the same iterator", "one loop",
-                     "the CSI branch consumes with %d loops" % len(loops))
+            r3.check(hdrs == ["csi"], "csi-loop", "CSI: the rest is consumed by the final-byte loop", "one loop",
+                     "after ESC '[' the skipper runs the loops %s; expected the final-byte scan" % hdrs)
         elif csi is False and osc is True:
             kinds["osc"] = True
-            r3.check(len(loops) == 1, "osc-loop", "OSC: the rest is consumed by one loop over the same iterator", "one loop",
-                     "the OSC branch consumes with %d loops" % len(loops))
+            r3.check(hdrs == ["osc"], "osc-loop", "OSC: the rest is consumed by the terminator loop", "one loop",
+                     "after ESC ']' the skipper runs the loops %s; expected the BEL / ESC-backslash scan" % hdrs)
         elif csi is False and osc is False:
             kinds["other"] = True
-            r3.check(not loops, "other", "neither '[' nor ']': nothing more is consumed", "no loop",
-                     "after ESC + other char the skipper consumes more input")
+            r3.check(not hdrs and len(evs) == len(out_evs), "other", "neither '[' nor ']': nothing more is consumed", "no loop",
+                     "after ESC + other char (or end of input) the skipper consumes more input")
         else:
-            r3.check(False, "dispatch", "", "", "the skipper's dispatch on the char after ESC is not '[' then ']' (conditions %s)" % eqs)
+            r3.check(False, "dispatch", "", "", "the skipper's dispatch on the char after ESC is not decided by '[' and ']' "
+                     "(conditions %s)" % {D(k): v for k, v in intro.items()})
     r3.check(set(kinds) == {"not-esc", "csi", "osc", "other"}, "all-branches", "the four branches exist", str(sorted(kinds)),
              "the skipper lacks one of the branches not-ESC / CSI / OSC / other: %s" % sorted(kinds), nontrivial=False)
-    # loops
-    lms = [lm for lm in loop_models(prog, body) if lm.kind == "iter"]
-    seen = {"csi": 0, "osc": 0}
-    for lm in lms:
-        src = resolve_iter(prog, body, lm.next_call[2][0], lm.next_block)
-        r3.check(src is not None and src[0] == "param" and src[1] == 2, "loop-iterator",
-                 "the consuming loop advances the caller's iterator", D(src) if src else "?",
-                 "a loop in the skipper iterates %s, not the iterator parameter" % (D(src) if src else "?"))
-        sv = loop_state_vars(body, lm, types=("char",))
-        item = lm.item
-        trans = loop_system(prog, body, lm, list(sv.keys()), [])
-        if not sv:
-            # CSI loop: continue iff !FINAL.contains(ch)
-            seen["csi"] += 1
-            final = ("call", "RangeInclusive::new", (("char", 0x40), ("char", 0x7e)))
-            for tr in trans:
-                conds = [(a[1], pol) for a, pol in tr.facts if a[0] == "b"]
-                if tr.kind == "back":
-                    r3.check(conds == [(("call", "RangeInclusive::contains", (final, item)), False)], "csi-continue",
-                             "CSI loop continues iff the char is outside U+0040..=U+007E", "condition !FINAL.contains(ch)",
-                             "the CSI loop continues under %s; expected !('\\x40'..='\\x7e').contains(&ch)" % [(D(c), p) for c, p in conds])
-                elif any(a[0] == "variant" and a[2] == "Some" and pol for a, pol in tr.facts):
-                    r3.check(conds == [(("call", "RangeInclusive::contains", (final, item)), True)], "csi-break",
-                             "CSI loop stops at the first char in U+0040..=U+007E", "condition FINAL.contains(ch)",
-                             "the CSI loop stops under %s; expected ('\\x40'..='\\x7e').contains(&ch)" % [(D(c), p) for c, p in conds])
-        else:
-            seen["osc"] += 1
-            lpk = next(iter(sv))
-            last = s.val_entry(lpk, lm.header)
-            init = entry_value(prog, body, lm, lpk)
-            r3.check(init is not None and init[0] == "char" and init[1] != ESC, "osc-last-init",
-                     "the previous-char tracker starts with a non-ESC char", D(init) if init else "?",
-                     "the OSC previous-char tracker starts as %s" % (D(init) if init else "?"))
-            bel = EQ0(fact_nf((("cmp", "Eq", ("char", BEL), item), True))[1])
-            for tr in trans:
-                nfs = set()
-                for a, pol in tr.facts:
-                    if a[0] == "cmp":
-                        nfs.add((tuple(sorted([a[2], a[3]], key=repr)), pol))
-                eq = lambda x, y, p: (tuple(sorted([x, y], key=repr)), p)
-                if tr.kind == "back":
-                    ok = nfs in ({eq(("char", BEL), item, False), eq(("char", BSL), item, False)},
-                                 {eq(("char", BEL), item, False), eq(("char", BSL), item, True), eq(("char", ESC), last, False)})
-                    r3.check(ok, "osc-continue", "OSC loop continues unless BEL, or backslash preceded by ESC", "conditions match",
-                             "the OSC loop continues under %s" % [(D(a), D(b), p) for (a, b), p in nfs])
-                    r3.check(tr.next[lpk] == item, "osc-track", "last := new on every continuing path", "next(last) = new",
-                             "the previous-char tracker becomes %s instead of the current char" % D(tr.next[lpk]))
-                elif any(a[0] == "variant" and a[2] == "Some" and pol for a, pol in tr.facts):
-                    ok = nfs in ({eq(("char", BEL), item, True)},
-                                 {eq(("char", BEL), item, False), eq(("char", BSL), item, True), eq(("char", ESC), last, True)})
-                    r3.check(ok, "osc-break", "OSC loop stops at BEL or at ESC-backslash", "conditions match",
-                             "the OSC loop stops under %s; expected new == BEL, or new == '\\\\' && last == ESC"
-                             % [(D(a), D(b), p) for (a, b), p in nfs])
-    r3.check(seen == {"csi": 1, "osc": 1}, "two-loops", "one CSI and one OSC loop", str(seen),
-             "expected one stateless (CSI) and one char-tracking (OSC) loop, found %s" % seen, nontrivial=False)
 
 
 def _chwidth(prog, rep):
